@@ -60,7 +60,8 @@ func (cache *CacheLRU) GetTime(key string) (int64, error) {
 
 func (cache *CacheLRU) Flush() {
 	clear(cache.keys)
-	clear(cache.entries)
+	// Drop the entries: clearing the slice in place would keep its length and leave nil cells in the heap.
+	cache.entries = make([]*EntryLRU, 0)
 }
 
 func (cache *CacheLRU) Len() int {
